@@ -889,6 +889,9 @@ class AsyncFIXConnection:
 
             msg_seq_num = int(msg[FTag.MsgSeqNum])
             is_valid_msg_num = await self._check_seqnum_gaps(msg_seq_num)
+            if self._connection_state <= ConnectionState.DISCONNECTED_BROKEN_CONN:
+                # disconnected while ResendRequest() was draining
+                return
             if is_seqreset_ignored:
                 is_valid_msg_num = False
 
